@@ -103,7 +103,11 @@ def mutants(rng, case, k=6):
 def run_family(seed, max_nodes=12):
     """One base graph and its mutants: returns (n_evaluations, collisions, stats)."""
     rng = random.Random(seed)
-    base = gen_graph(rng, max_nodes=max_nodes, malformed=0.0)
+    # no cache edges: through a cache a Silent argument may legitimately serve the value of an earlier evaluation,
+    # which then flows into by-value hashes downstream (exempt by design); caches are hash-transparent anyway
+    kinds = {'fn': 10, 'ident': 2, 'const': 2, 'product': 2, 'barrier': 2, 'byvalue': 2, 'impure': 2,
+             'switch': 2, 'switch_branch': 1, 'switch_missing': 1, 'check_ids': 1}
+    base = gen_graph(rng, max_nodes=max_nodes, malformed=0.0, kinds=kinds)
     fam = [('base', base)] + mutants(rng, base)
     world = SymWorld()
     n_in = sum(1 for n in base['nodes'] if n['edge'] is None)
@@ -149,14 +153,21 @@ def run_family(seed, max_nodes=12):
             if canon(val_to_json(it[0], world)) != c0:
                 rec = {'hash': repr(key)[:300], 'a': {'variant': first[1], 'out': first[2], 'env': first[3], 'case': first[4]},
                        'b': {'variant': it[1], 'out': it[2], 'env': it[3], 'case': it[4]},
-                       'value_a': c0[:300], 'value_b': canon(val_to_json(it[0], world))[:300]}
+                       'value_a': c0[:2000], 'value_b': canon(val_to_json(it[0], world))[:2000]}
                 if it[0] == first[0]:
                     pyeq_only.append(rec)      # equal under Python `==` (0 == False, 1 == True): finding F3
+                elif _silent_as_none(rec['value_a']) == _silent_as_none(rec['value_b']):
+                    rec['silent_none'] = True   # a Silent position vs an argument whose value is None: finding F9
+                    collisions.append(rec)
                 else:
                     collisions.append(rec)
                 break
     nontrivial = sum(1 for k, items in groups.items() if len(items) >= 2)
     return evals, collisions, pyeq_only, {'variants': kinds, 'groups': len(groups), 'groups_with_pairs': nontrivial}
+
+
+def _silent_as_none(canon_text):
+    return canon_text.replace('{"app":["$silent",[],[],[]]}', 'null')
 
 
 def check_pair(rec):
